@@ -8,7 +8,7 @@ ASSUMPTIONS = [
     'virtual clock, gated store: every storage call is a yield point (as on disk/redis/cloud), so backoff 0 and flush can interleave with the retry bookkeeping',
 ]
 
-CFGS = [dict(max_msgs=2, flush=True, race_announce=True), dict(max_msgs=2, flush=True, case_twins=True), dict(max_msgs=3, flush=True, relay_pool=1), dict(max_msgs=3, flush=False, relay_pool=2, foreign=True),
+CFGS = [dict(max_msgs=2, flush=True, relay_policy=True), dict(max_msgs=2, flush=True, cross_codes=True), dict(max_msgs=2, flush=False, cross_codes=True, backend='cloud'), dict(max_msgs=2, flush=True, race_announce=True), dict(max_msgs=2, flush=True, case_twins=True), dict(max_msgs=3, flush=True, relay_pool=1), dict(max_msgs=3, flush=False, relay_pool=2, foreign=True),
         dict(max_msgs=2, flush=True, backend='disk'), dict(max_msgs=2, flush=False, backend='cloud'),
         dict(max_msgs=2, flush=True), dict(max_msgs=3, flush=False), dict(max_msgs=1, flush=True), dict(max_msgs=2, flush=True, foreign=True)]
 
